@@ -97,7 +97,7 @@ def run(case, j):
     tolr = 1e-6
 
     fits = {}
-    robj = pc.make_regressor(reg)  # one regressor object shared by every route
+    robj = pc.make_regressor(reg, abort=True)  # one regressor object shared by every route
     past = (lambda i: np.random.default_rng(case["seed"] * 7 + i)) if case.get("past") else (lambda i: None)
     with pc.Capture() as cap:  # earlier-history fits pass through the capture too: index 1 is the real-data fit then
         fits["feature/full"] = pc.fit_pcovr(j, "feature/full", X, Y, reg, regressor_obj=robj, past=past(1), mixing=a, n_components=k, space="feature", svd_solver="full")
